@@ -57,6 +57,10 @@ def get_fingerprinted_hostname(url, infer_redirection=True, strip_suffix=False):
         url = lowercase(url)
 
     if infer_redirection:
+        # NOTE: same cleaning as `normalize_url` before inferring redirections
+        if not isinstance(url, SplitResult):
+            url = CONTROL_CHARS_RE.sub("", url).strip()
+
         url = resolve(url)
 
     if isinstance(url, SplitResult):
